@@ -37,3 +37,12 @@ mod c05;
 
 #[cfg(kani)]
 mod c10;
+
+#[cfg(kani)]
+mod c03;
+
+#[cfg(kani)]
+mod c11;
+
+#[cfg(kani)]
+mod c12;
